@@ -20,10 +20,12 @@ def math_call(ip, name, args):
     for v in vals:
         if numkind(ip, v) is None:
             raise_('TypeError', 'must be real number')
-    hook = ctx.cfg.hooks.get('int_to_float')
+    from .models_ops import FLOAT_MAX_INT
     for v in vals:
-        if hook is not None and numkind(ip, v) == 'int':
-            hook(ip, int_term(ip, v))
+        if name not in ('floor', 'ceil') and numkind(ip, v) == 'int' and not isinstance(v, C):
+            iv = int_term(ip, v)
+            if ctx.branch(z3.Or(iv >= FLOAT_MAX_INT, iv <= -FLOAT_MAX_INT)):
+                raise_('OverflowError', 'int too large to convert to float')
     xs = [real_term(ip, v) for v in vals]
     used('math.*: uninterpreted real functions; ValueError exactly on CPython domain errors; int arguments converted')
     if name in ('floor', 'ceil'):
